@@ -32,6 +32,12 @@ fn base_script(r: &mut Rng, kind: Kind) -> Script {
             17 | 18 => 3,
             _ => *r.pick(&[4u32, 17, 32]),
         },
+        mem_max: match r.below(8) {
+            0 => Some(None),
+            1 => Some(Some(1 + r.below(3) as u32)),
+            2 => Some(Some(*r.pick(&[480u32, 511, 512, 600]))),
+            _ => None,
+        },
         calls: vec![],
         blobs: vec![],
         param: vec![],
@@ -276,7 +282,17 @@ impl<'a> G<'a> {
 
     // ------------------------------------------------------------------ v0
 
+    /// the memory.grow instruction with small, boundary and hostile page counts
+    fn grow_call(&mut self) {
+        let n = if self.hostile() || self.r.chance(1, 4) { *self.r.pick(&[42_949_672u32, 42_949_673, 1 << 31, u32::MAX, 511, 512, 513, 65535, 65536, 1 << 16 | 1]) } else { *self.r.pick(&[0u32, 1, 1, 2, 3, 16]) };
+        self.call(GROW, vec![Arg::C32(n)]);
+    }
+
     fn v0_call(&mut self) {
+        if self.r.below(50) == 0 {
+            self.grow_call();
+            return;
+        }
         let init = self.s.kind.init();
         let pick = self.r.below(100);
         match pick {
@@ -476,6 +492,10 @@ impl<'a> G<'a> {
     }
 
     fn v1_call(&mut self) {
+        if self.r.below(50) == 0 {
+            self.grow_call();
+            return;
+        }
         let init = self.s.kind.init();
         match self.r.below(100) {
             0..=9 => {
@@ -865,8 +885,8 @@ pub fn interrupt_script(r: &mut Rng) -> Script {
     g.finish()
 }
 
-pub const LIMIT_TAGS: [&str; 11] =
-    ["limits.v0_state", "limits.log_size", "limits.log_count", "limits.v0_send_param", "limits.call_depth", "limits.v1_invoke_param", "limits.return_value", "limits.entry_size", "limits.param_sizes", "limits.key_size", "limits.v0_write_state"];
+pub const LIMIT_TAGS: [&str; 12] =
+    ["limits.memory_grow", "limits.v0_state", "limits.log_size", "limits.log_count", "limits.v0_send_param", "limits.call_depth", "limits.v1_invoke_param", "limits.return_value", "limits.entry_size", "limits.param_sizes", "limits.key_size", "limits.v0_write_state"];
 
 /// Boundary scripts on and just over the protocol limits.
 pub fn limit_script(r: &mut Rng, which: u64) -> Script {
@@ -875,6 +895,9 @@ pub fn limit_script(r: &mut Rng, which: u64) -> Script {
     let v0kind = if r.chance(1, 2) { Kind::V0Init } else { Kind::V0Receive };
     let v1kind = if r.chance(1, 2) { Kind::V1Init } else { Kind::V1Receive };
     let anykind = if r.chance(1, 2) { v0kind } else { v1kind };
+    // the numbering below predates the memory_grow tag (which is entry 0 of LIMIT_TAGS)
+    let grow = which == 0;
+    let which = if grow { 99 } else { which - 1 };
     let kind = match which {
         0 | 10 => v0kind,
         3 => Kind::V0Receive,
@@ -1012,6 +1035,31 @@ pub fn limit_script(r: &mut Rng, which: u64) -> Script {
             let f = *g.r.pick(&["state_create_entry", "state_lookup_entry", "state_delete_entry", "state_delete_prefix", "state_iterate_prefix"]);
             let l = *g.r.pick(&[(1u32 << 30) + 1, 1 << 31, u32::MAX, 1 << 30]);
             g.call(f, vec![Arg::Ptr(g.scratch, 0), Arg::C32(l)]);
+        }
+        99 => {
+            // memory.grow: charged 100 per requested page before anything happens; 512 pages is the chain limit
+            g.s.mem_max = *g.r.pick(&[None, Some(None), Some(None), Some(Some(2)), Some(Some(600))]);
+            let probe = |g: &mut G| {
+                // 16 bytes just past the initial end of memory: in bounds only after a successful grow
+                if g.s.kind.v1() {
+                    g.call("write_output", vec![Arg::MemEnd(0), Arg::C32(16), Arg::C32(0)]);
+                } else {
+                    g.call("log_event", vec![Arg::MemEnd(0), Arg::C32(16)]);
+                }
+            };
+            let first = *g.r.pick(&[0u32, 1, 2]);
+            g.call(GROW, vec![Arg::C32(first)]);
+            if first > 0 && g.s.mem_max.is_some() && g.r.chance(1, 2) {
+                probe(&mut g);
+            }
+            let big = *g.r.pick(&[42_949_672u32, 42_949_673, 1 << 31, u32::MAX, 513, 65536]);
+            g.call(GROW, vec![Arg::C32(big)]);
+            let edge = *g.r.pick(&[508u32, 509, 510, 511, 512]);
+            g.call(GROW, vec![Arg::C32(edge)]);
+            g.call(GROW, vec![Arg::C32(1)]);
+            if over {
+                probe(&mut g);
+            }
         }
         _ => unreachable!(),
     }
